@@ -432,6 +432,55 @@ def c17(run):
             run.fail(case, 'a value is reported for an expression that reads a variable, pronoun, element, call or pop')
 
 
+    # the folders asked at STATEMENT level through the trait's public dispatchers (`rock A like/with ...`, `X is ...`): a value
+    # they report must be the value the executed statement stores (model-free: the statement is run and the stored value
+    # printed)
+    g = rock.Gen(rng, names=[sv('xx')], funcs=[sv('ff')], max_depth=1)
+    sq, smeta = [], []
+    for _ in range(run.n(400, 8000)):
+        r = rng.random()
+        if r < 0.35:
+            words = g.poetic_words()
+            stmt = ('push', v(sv('qs')), ('plit', words)); obs = 'say qs at 0\n'
+        elif r < 0.55:
+            e = const_expr(rng, rng.randint(0, 2)) if rng.random() < 0.7 else special_mixed_expr(rng)
+            stmt = ('push', v(sv('qs')), ('list', [e])); obs = 'say qs at 0\n'
+        elif r < 0.8:
+            stmt = ('pnum', ('lid', sv('zz')), ('plit', g.poetic_words())); obs = 'say zz\n'
+        else:
+            x = rng.choice([5.0, 0.25, 42.0])
+            e = rng.choice([num(x), bin_('plus', num(x), num(1)), bin_('multiply', num(x), v(sv('xx'))), st('lit'), TRUE])
+            stmt = ('pnum', ('lid', sv('zz')), ('pexpr', e)); obs = 'say zz\n'
+        try:
+            text = rock.Speller(rng, noise=0.02, comments=0).program([[stmt]])
+        except Exception:
+            continue
+        sq.append('foldstmt ' + hx(text)); smeta.append((text, obs))
+    sans = common.impl(sq)
+    pre2 = 'put 3 into xx\nff takes pp\ngive back pp\n\n'
+    exq = [run_req(pre2 + t + o) for (t, o) in smeta]
+    exa = common.impl(exq)
+    fq = ['fmt ' + a[7:23] for a in sans if a.startswith('num=ok:')]
+    fa = iter(common.impl(fq))
+    for (text, obs), a, ra in zip(smeta, sans, exa):
+        if a in ('skipped', 'bad') or ra == 'skipped':
+            continue
+        run.case(('foldstmt', text), True, kind='statement-level-fold', folded=a.split(' ')[0][:6])
+        nf, sf = a.split(' ')
+        c, det, out, _ = run_parts(ra)
+        case = {'statement': text, 'fold': a, 'run': ra[:200]}
+        if 'crash' in a:
+            run.fail(case, 'constant folding of a statement\'s right-hand side does not return')
+        if nf.startswith('num=ok:'):
+            want = unhx(next(fa)).decode() + '\n'
+            if c != 'ok' or out.decode('utf-8', 'replace') != want:
+                run.fail(case, 'the folder reports %s for the right-hand side but the executed statement stores %s %r' % (want.strip(), c, out.decode('utf-8', 'replace')))
+        if sf.startswith('str=ok:'):
+            want = unhx(sf[7:]).decode() + '\n'
+            if c != 'ok' or out.decode('utf-8', 'replace') != want:
+                run.fail(case, 'the string folder reports %r for the right-hand side but the executed statement stores %s %r' % (want, c, out))
+
+
 # ----------------------------------------------------------------------------- C18 / C19
 
 def parse_lint(r):
